@@ -16,6 +16,91 @@ func init() {
 
 const fnPkg = "lang/expressions/functions"
 
+// indexExprOf: e is x[i], &x[i], or a single-definition local bound to one of those.
+func (d defMap) indexExprOf(info *types.Info, e ast.Expr) *ast.IndexExpr {
+	for k := 0; k < 3; k++ {
+		e = unparen(e)
+		if u, ok := e.(*ast.UnaryExpr); ok && u.Op == token.AND {
+			e = unparen(u.X)
+		}
+		if ix, ok := e.(*ast.IndexExpr); ok {
+			return ix
+		}
+		if _, isId := e.(*ast.Ident); !isId {
+			return nil
+		}
+		r := d.resolve1(info, e)
+		if r == e {
+			return nil
+		}
+		e = r
+	}
+	return nil
+}
+
+// evalPropExpr evaluates a side-effect-free expression over the receiver (value recv), integer
+// constants and single-definition locals: returns (value, isBool, known).
+func evalPropExpr(info *types.Info, defs defMap, e ast.Expr, recvObj types.Object, recv int64) (int64, bool, bool) {
+	e = stripConv(info, e)
+	if v, ok := constInt(info, e); ok {
+		return v, false, true
+	}
+	switch x := e.(type) {
+	case *ast.Ident:
+		if info.ObjectOf(x) == recvObj {
+			return recv, false, true
+		}
+		if r := defs.resolve1(info, x); r != ast.Expr(x) {
+			return evalPropExpr(info, defs, r, recvObj, recv)
+		}
+	case *ast.UnaryExpr:
+		if x.Op == token.NOT {
+			v, isB, ok := evalPropExpr(info, defs, x.X, recvObj, recv)
+			if ok && isB {
+				return 1 - v, true, true
+			}
+		}
+	case *ast.BinaryExpr:
+		a, aB, ok1 := evalPropExpr(info, defs, x.X, recvObj, recv)
+		b, bB, ok2 := evalPropExpr(info, defs, x.Y, recvObj, recv)
+		if !ok1 || !ok2 || aB != bB {
+			return 0, false, false
+		}
+		b2i := func(t bool) int64 {
+			if t {
+				return 1
+			}
+			return 0
+		}
+		if aB {
+			switch x.Op {
+			case token.LAND:
+				return b2i(a != 0 && b != 0), true, true
+			case token.LOR:
+				return b2i(a != 0 || b != 0), true, true
+			case token.EQL:
+				return b2i(a == b), true, true
+			case token.NEQ:
+				return b2i(a != b), true, true
+			}
+			return 0, false, false
+		}
+		switch x.Op {
+		case token.AND:
+			return a & b, false, true
+		case token.OR:
+			return a | b, false, true
+		case token.AND_NOT:
+			return a &^ b, false, true
+		case token.XOR:
+			return a ^ b, false, true
+		case token.EQL, token.NEQ, token.LSS, token.LEQ, token.GTR, token.GEQ:
+			return b2i(intPred(x.Op, b)(a)), true, true
+		}
+	}
+	return 0, false, false
+}
+
 func propConsts(c *Ctx) map[string]int64 {
 	out := map[string]int64{}
 	pk := c.Pkg(fnPkg)
@@ -49,6 +134,7 @@ func runC04(c *Ctx) {
 		want := map[string]string{"OperatorLogicAnd": "LogicAnd", "OperatorLogicOr": "LogicOr", "IsMethod": "Method"}
 		got := map[string]string{}
 		pos := map[string]token.Pos{}
+		cdefs := localDefs(linfo, fd.Body)
 		ast.Inspect(fd.Body, func(n ast.Node) bool {
 			as, ok := n.(*ast.AssignStmt)
 			if !ok || len(as.Lhs) != 1 || len(as.Rhs) != 1 {
@@ -61,8 +147,9 @@ func runC04(c *Ctx) {
 			if _, w := want[se.Sel.Name]; !w {
 				return true
 			}
-			lix, ok := unparen(se.X).(*ast.IndexExpr)
-			if !ok {
+			// procs[i] — or a pointer local `proc := &procs[i]`
+			lix := cdefs.indexExprOf(linfo, se.X)
+			if lix == nil {
 				return true
 			}
 			call, ok := unparen(as.Rhs[0]).(*ast.CallExpr)
@@ -79,8 +166,9 @@ func runC04(c *Ctx) {
 			// same index on both sides: procs[i] ... (*tree)[i].Properties.X()
 			same := false
 			if fs, ok := call.Fun.(*ast.SelectorExpr); ok {
-				if ps, ok := unparen(fs.X).(*ast.SelectorExpr); ok && ps.Sel.Name == "Properties" {
-					if rix, ok := unparen(ps.X).(*ast.IndexExpr); ok && c.sameExpr(rix.Index, lix.Index) {
+				// (*tree)[i].Properties — directly, or through `props := (*tree)[i].Properties` / `node := &(*tree)[i]`
+				if ps, ok := cdefs.resolve1(linfo, fs.X).(*ast.SelectorExpr); ok && ps.Sel.Name == "Properties" {
+					if rix := cdefs.indexExprOf(linfo, ps.X); rix != nil && c.sameExpr(rix.Index, lix.Index) {
 						same = true
 					}
 				}
@@ -118,22 +206,30 @@ func runC04(c *Ctx) {
 	if fd, _ := c.MustFunc("R04f", "lang", "", "executeProcess"); fd != nil {
 		ok := false
 		var pos token.Pos = fd.Pos()
+		edefs := localDefs(linfo, fd.Body)
+		// anything that starts the process's work before the test voids it
+		startsWork := func(n ast.Node) bool {
+			found := false
+			for _, call := range calls(n, false) {
+				if nm := calleeName(linfo, call); strings.HasSuffix(nm, "ParseStatementParameters") || strings.Contains(nm, "Execute") {
+					found = true
+				}
+			}
+			return found
+		}
 		for _, s := range fd.Body.List {
 			is, isIf := s.(*ast.IfStmt)
-			if !isIf {
-				// anything before the test that starts the process's work voids it
-				if es, isE := s.(*ast.ExprStmt); isE {
-					if call, isC := es.X.(*ast.CallExpr); isC {
-						if n := calleeName(linfo, call); strings.HasSuffix(n, "ParseStatementParameters") || strings.Contains(n, "Execute") {
-							break
-						}
-					}
+			if !isIf || !terminates(linfo, is.Body.List) || is.Else != nil {
+				// other early exits (cancelled …) and set-up statements may precede the test
+				if _, isDefer := s.(*ast.DeferStmt); !isDefer && startsWork(s) {
+					break
 				}
 				continue
 			}
 			has := false
 			for _, d := range disjuncts(is.Cond) {
-				if call, isC := unparen(d).(*ast.CallExpr); isC {
+				// p.HasTerminated(), possibly read into a local just before
+				if call, isC := edefs.resolve1(linfo, d).(*ast.CallExpr); isC {
 					if se, isS := call.Fun.(*ast.SelectorExpr); isS && se.Sel.Name == "HasTerminated" {
 						if id, isI := se.X.(*ast.Ident); isI && isParam(linfo, fd, id) {
 							has = true
@@ -141,11 +237,14 @@ func runC04(c *Ctx) {
 					}
 				}
 			}
-			if has && terminates(linfo, is.Body.List) {
+			if has {
 				ok = true
 				pos = is.Pos()
+				break
 			}
-			break
+			if startsWork(is.Cond) {
+				break
+			}
 		}
 		c.Check(ok, "R04f", "executeProcess:skip-terminated", pos, "executeProcess returns at once for a process already marked terminated (a skipped && / || command must not run)")
 	}
@@ -190,6 +289,7 @@ func (c *Ctx) checkParseBlockTable(P map[string]int64) {
 		okc        bool
 	}
 	var rows []row
+	pdefs := localDefs(info, fd.Body)
 	walkStack(fd.Body, func(n ast.Node, stack []ast.Node) bool {
 		call, ok := n.(*ast.CallExpr)
 		if !ok || !callIs(info, call, mx("lang/expressions"), "BlockT", "append") || len(call.Args) != 3 {
@@ -213,15 +313,21 @@ func (c *Ctx) checkParseBlockTable(P map[string]int64) {
 			}
 		}
 		for _, f := range factsOf(guardsAt(info, stack)) {
-			if b, ok := unparen(f.E).(*ast.BinaryExpr); ok && b.Op == token.EQL {
-				if cl, ok := unparen(b.X).(*ast.CallExpr); ok {
+			// nextChar() == 'x' in either operand order, == or !=, the call possibly read into a local first
+			if b, ok := unparen(f.E).(*ast.BinaryExpr); ok && (b.Op == token.EQL || b.Op == token.NEQ) {
+				for _, pair := range [][2]ast.Expr{{b.X, b.Y}, {b.Y, b.X}} {
+					cl, ok := pdefs.resolve1(info, pair[0]).(*ast.CallExpr)
+					if !ok {
+						continue
+					}
 					if se, ok := cl.Fun.(*ast.SelectorExpr); ok && se.Sel.Name == "nextChar" {
-						if v, ok := constInt(info, b.Y); ok {
-							if f.True {
+						if v, ok := constInt(info, pair[1]); ok {
+							if (b.Op == token.EQL) == f.True {
 								arm += fmt.Sprintf("+%q", rune(v))
 							} else {
 								arm += fmt.Sprintf("+not%q", rune(v))
 							}
+							break
 						}
 					}
 				}
@@ -288,6 +394,7 @@ func (c *Ctx) checkParseBlockTable(P map[string]int64) {
 			}
 		}
 		nProps, okProps := 0, 0
+		adefs := localDefs(info, afd.Body)
 		ast.Inspect(afd.Body, func(n ast.Node) bool {
 			kv, ok := n.(*ast.KeyValueExpr)
 			if !ok {
@@ -297,7 +404,7 @@ func (c *Ctx) checkParseBlockTable(P map[string]int64) {
 				return true
 			}
 			nProps++
-			b, ok := unparen(kv.Value).(*ast.BinaryExpr)
+			b, ok := adefs.resolve1(info, kv.Value).(*ast.BinaryExpr)
 			if ok && b.Op == token.OR {
 				x, y := unparen(b.X), unparen(b.Y)
 				isNP := func(e ast.Expr) bool {
@@ -337,19 +444,40 @@ func (c *Ctx) checkParseBlockTable(P map[string]int64) {
 			if fd == nil {
 				continue
 			}
+			// semantic: the returned expression, evaluated for every combination of the seven bits,
+			// is true exactly when the accessor's own bit is set (prop&BIT != 0, == BIT, > 0, operands
+			// in any order, through a local)
 			ok := false
-			if len(fd.Body.List) == 1 {
-				if rs, isR := fd.Body.List[0].(*ast.ReturnStmt); isR && len(rs.Results) == 1 {
-					if b, isB := unparen(rs.Results[0]).(*ast.BinaryExpr); isB && b.Op == token.NEQ {
-						if and, isA := unparen(b.X).(*ast.BinaryExpr); isA && and.Op == token.AND {
-							z, zok := constInt(finfo, b.Y)
-							v, vok := constInt(finfo, and.Y)
-							if !vok {
-								v, vok = constInt(finfo, and.X)
-							}
-							ok = zok && z == 0 && vok && v == P[k]
+			var recvObj types.Object
+			if fd.Recv != nil && len(fd.Recv.List) == 1 && len(fd.Recv.List[0].Names) == 1 {
+				recvObj = finfo.Defs[fd.Recv.List[0].Names[0]]
+			}
+			if n := len(fd.Body.List); n >= 1 && recvObj != nil {
+				if rs, isR := fd.Body.List[n-1].(*ast.ReturnStmt); isR && len(rs.Results) == 1 {
+					fdefs := localDefs(finfo, fd.Body)
+					noOther := true
+					for _, st := range fd.Body.List[:n-1] {
+						switch st.(type) {
+						case *ast.AssignStmt, *ast.DeclStmt:
+						default:
+							noOther = false
 						}
 					}
+					var all int64
+					for _, b := range P {
+						all |= b
+					}
+					agrees := noOther
+					for v := int64(0); v <= all && agrees; v++ {
+						if v&^all != 0 {
+							continue
+						}
+						got, isB, known := evalPropExpr(finfo, fdefs, rs.Results[0], recvObj, v)
+						if !known || !isB || (got != 0) != (v&P[k] != 0) {
+							agrees = false
+						}
+					}
+					ok = agrees
 				}
 			}
 			c.Check(ok, "R04a", "accessor:"+m, fd.Pos(), "Property.%s() tests bit %s", m, k)
@@ -375,51 +503,110 @@ func (c *Ctx) checkNormalPredicate(info *types.Info, fd *ast.FuncDecl, prefix st
 	defs := localDefs(info, fd.Body)
 	// loop variable
 	var loopVar types.Object
-	var loop *ast.RangeStmt
+	var loop ast.Stmt
+	var loopBody *ast.BlockStmt
 	for _, s := range fd.Body.List {
-		if rs, ok := s.(*ast.RangeStmt); ok {
-			loop = rs
-			if id, ok := rs.Key.(*ast.Ident); ok {
-				loopVar = info.ObjectOf(id)
+		switch ls := s.(type) {
+		case *ast.RangeStmt: // for i := range *procs
+			if id, ok := ls.Key.(*ast.Ident); ok && ex.isProcs(ls.X) && ls.Value == nil {
+				loop, loopBody, loopVar = ls, ls.Body, info.ObjectOf(id)
+			}
+		case *ast.ForStmt: // for i := 0; i < len(*procs); i++
+			init, ok1 := ls.Init.(*ast.AssignStmt)
+			post, ok2 := ls.Post.(*ast.IncDecStmt)
+			if !ok1 || !ok2 || ls.Cond == nil || len(init.Lhs) != 1 || len(init.Rhs) != 1 || post.Tok != token.INC {
+				continue
+			}
+			id, ok := init.Lhs[0].(*ast.Ident)
+			if v, isC := constInt(info, init.Rhs[0]); !ok || !isC || v != 0 {
+				continue
+			}
+			o := info.ObjectOf(id)
+			if pid, ok := unparen(post.X).(*ast.Ident); !ok || info.ObjectOf(pid) != o {
+				continue
+			}
+			// condition equivalent to i < len(*procs)
+			okCond := false
+			if b, ok := unparen(ls.Cond).(*ast.BinaryExpr); ok {
+				x, y, op := unparen(b.X), unparen(b.Y), b.Op
+				if _, isLen := isBuiltinCall(info, x, "len"); isLen {
+					x, y = y, x
+					op = map[token.Token]token.Token{token.GTR: token.LSS, token.LSS: token.GTR, token.NEQ: token.NEQ}[op]
+				}
+				if xi, ok := x.(*ast.Ident); ok && info.ObjectOf(xi) == o && (op == token.LSS || op == token.NEQ) {
+					if call, isLen := isBuiltinCall(info, y, "len"); isLen && len(call.Args) == 1 && ex.isProcs(call.Args[0]) {
+						okCond = true
+					}
+				}
+			}
+			// and i is not assigned in the body
+			if okCond && len(defs[o]) == 2 { // the init and the post statement
+				loop, loopBody, loopVar = ls, ls.Body, o
 			}
 		}
 	}
 	if loop == nil || loopVar == nil {
-		c.Undecided("R04c", prefix+"runModeNormal:loop", fd.Pos(), "no `for i := range *procs` loop (recognised idiom)")
+		c.Undecided("R04c", prefix+"runModeNormal:loop", fd.Pos(), "no `for i := range *procs` / `for i := 0; i < len(*procs); i++` loop (recognised idioms)")
 		return
 	}
 	// index classification: "cur" if expr resolves to i, "prev" if i-1
-	classify := func(e ast.Expr) string {
+	// offsetOf: e denotes <loop index> + k on every path (constants folded; a local is followed
+	// through ALL its definitions, which must agree: `prev = i - 1`, `prev := -1 + i`)
+	var offsetOf func(e ast.Expr, depth int) (int64, bool)
+	offsetOf = func(e ast.Expr, depth int) (int64, bool) {
 		e = unparen(e)
-		if id, ok := e.(*ast.Ident); ok {
-			if info.ObjectOf(id) == loopVar {
-				return "cur"
+		if depth > 4 {
+			return 0, false
+		}
+		switch x := e.(type) {
+		case *ast.Ident:
+			o := info.ObjectOf(x)
+			if o == loopVar {
+				return 0, true
 			}
-			// single-definition local: prev = i - 1
-			ds := defs[info.ObjectOf(id)]
-			ok2 := len(ds) > 0
-			for _, d := range ds {
+			ds := defs[o]
+			if len(ds) == 0 {
+				return 0, false
+			}
+			var k int64
+			for i, d := range ds {
 				if d == nil {
-					ok2 = false
-					continue
+					return 0, false
 				}
-				if b, isB := unparen(d).(*ast.BinaryExpr); !isB || b.Op != token.SUB {
-					ok2 = false
-				} else if x, isI := unparen(b.X).(*ast.Ident); !isI || info.ObjectOf(x) != loopVar {
-					ok2 = false
-				} else if v, isC := constInt(info, b.Y); !isC || v != 1 {
-					ok2 = false
+				v, ok := offsetOf(d, depth+1)
+				if !ok || (i > 0 && v != k) {
+					return 0, false
+				}
+				k = v
+			}
+			return k, true
+		case *ast.BinaryExpr:
+			if x.Op != token.ADD && x.Op != token.SUB {
+				return 0, false
+			}
+			if v, isC := constInt(info, x.Y); isC {
+				if k, ok := offsetOf(x.X, depth+1); ok {
+					if x.Op == token.ADD {
+						return k + v, true
+					}
+					return k - v, true
 				}
 			}
-			if ok2 {
-				return "prev"
+			if v, isC := constInt(info, x.X); isC && x.Op == token.ADD {
+				if k, ok := offsetOf(x.Y, depth+1); ok {
+					return k + v, true
+				}
 			}
 		}
-		if b, isB := e.(*ast.BinaryExpr); isB && b.Op == token.SUB {
-			if x, isI := unparen(b.X).(*ast.Ident); isI && info.ObjectOf(x) == loopVar {
-				if v, isC := constInt(info, b.Y); isC && v == 1 {
-					return "prev"
-				}
+		return 0, false
+	}
+	classify := func(e ast.Expr) string {
+		if k, ok := offsetOf(e, 0); ok {
+			switch k {
+			case 0:
+				return "cur"
+			case -1:
+				return "prev"
 			}
 		}
 		return ""
@@ -429,12 +616,40 @@ func (c *Ctx) checkNormalPredicate(info *types.Info, fd *ast.FuncDecl, prefix st
 		if !ok {
 			return "", ""
 		}
-		x := unparen(se.X)
-		ix, ok := x.(*ast.IndexExpr)
-		if !ok || !ex.isProcs(ix.X) {
+		ix := defs.indexExprOf(info, se.X) // (*procs)[k] or a pointer local `before := &(*procs)[k]`
+		if ix == nil || !ex.isProcs(ix.X) {
 			return "", ""
 		}
 		return classify(ix.Index), se.Sel.Name
+	}
+	// expandBool substitutes single-definition boolean locals by their definitions
+	// (and, or := …; failed := procs[prev].ExitNum != 0) so that the predicate is judged
+	// over the same atoms however it is spelled.
+	var expandBool func(e ast.Expr, depth int) ast.Expr
+	expandBool = func(e ast.Expr, depth int) ast.Expr {
+		e = unparen(e)
+		if depth > 6 {
+			return e
+		}
+		switch x := e.(type) {
+		case *ast.Ident:
+			if o := info.ObjectOf(x); o != nil && o.Parent() != types.Universe {
+				if ds := defs[o]; len(ds) == 1 && ds[0] != nil {
+					if _, isConst := constBool(info, ds[0]); !isConst {
+						return &ast.ParenExpr{X: expandBool(ds[0], depth+1)}
+					}
+				}
+			}
+		case *ast.UnaryExpr:
+			if x.Op == token.NOT {
+				return &ast.UnaryExpr{OpPos: x.OpPos, Op: x.Op, X: expandBool(x.X, depth+1)}
+			}
+		case *ast.BinaryExpr:
+			if x.Op == token.LAND || x.Op == token.LOR {
+				return &ast.BinaryExpr{X: expandBool(x.X, depth+1), OpPos: x.OpPos, Op: x.Op, Y: expandBool(x.Y, depth+1)}
+			}
+		}
+		return e
 	}
 	var skipVar types.Object
 	atom := func(e ast.Expr) (string, bool, bool) {
@@ -470,10 +685,10 @@ func (c *Ctx) checkNormalPredicate(info *types.Info, fd *ast.FuncDecl, prefix st
 	}
 	// find the if statement whose condition mentions OperatorLogicAnd of cur
 	var pred *ast.IfStmt
-	ast.Inspect(loop.Body, func(n ast.Node) bool {
+	ast.Inspect(loopBody, func(n ast.Node) bool {
 		if is, ok := n.(*ast.IfStmt); ok && pred == nil {
 			found := false
-			ast.Inspect(is.Cond, func(m ast.Node) bool {
+			ast.Inspect(expandBool(is.Cond, 0), func(m ast.Node) bool {
 				if e, ok := m.(ast.Expr); ok {
 					if w, f := procFieldOf(e); w == "cur" && (f == "OperatorLogicAnd" || f == "OperatorLogicOr") {
 						found = true
@@ -492,7 +707,7 @@ func (c *Ctx) checkNormalPredicate(info *types.Info, fd *ast.FuncDecl, prefix st
 		return
 	}
 	atoms := []string{"A", "O", "F", "S"}
-	tt, unk := truthTable(pred.Cond, atoms, atom)
+	tt, unk := truthTable(expandBool(pred.Cond, 0), atoms, atom)
 	if len(unk) > 0 {
 		c.Undecided("R04c", prefix+"runModeNormal:predicate", pred.Cond.Pos(), "leaf %q of the skip predicate is not one of: procs[i].OperatorLogicAnd, procs[i].OperatorLogicOr, a test of procs[i-1].ExitNum that is equivalent to `!= 0` / `== 0` on all integers (negative exit numbers — `return -2`, the and/or builtins — are failures in normal mode), the skipPipeline flag", unk[0])
 		return
@@ -558,7 +773,36 @@ func (c *Ctx) checkNormalPredicate(info *types.Info, fd *ast.FuncDecl, prefix st
 	c.Check(setsSkipF, "R04c", prefix+"runModeNormal:run-arm:flag", pred.Pos(), "the run arm clears the chain-skipping flag (a `;` or a command that runs ends the skipped chain)")
 	// skipVar is assigned nowhere else
 	if skipVar != nil {
-		n := len(defs[skipVar])
+		// stores = assignments; declaring the flag with its zero value (`skipPipeline := false`,
+		// `var skipPipeline = false`) is the same as `var skipPipeline bool`
+		n := 0
+		ast.Inspect(fd.Body, func(x ast.Node) bool {
+			switch y := x.(type) {
+			case *ast.AssignStmt:
+				for i, l := range y.Lhs {
+					id, ok := l.(*ast.Ident)
+					if !ok || info.ObjectOf(id) != skipVar {
+						continue
+					}
+					if y.Tok == token.DEFINE && len(y.Lhs) == len(y.Rhs) {
+						if b, isC := constBool(info, y.Rhs[i]); isC && !b {
+							continue
+						}
+					}
+					n++
+				}
+			case *ast.ValueSpec:
+				for i, id := range y.Names {
+					if info.ObjectOf(id) != skipVar || i >= len(y.Values) {
+						continue
+					}
+					if b, isC := constBool(info, y.Values[i]); !isC || b {
+						n++
+					}
+				}
+			}
+			return true
+		})
 		c.Check(n == 2, "R04c", prefix+"runModeNormal:flag-stores", pred.Pos(), "the chain-skipping flag is stored only in the two arms (%d stores)", n)
 	}
 	// the predicate is evaluated only for i > 0 and after the wait
